@@ -76,6 +76,54 @@ def step (i : In) : Out :=
 
 end Sink
 
+/-! ### two callers of one exclusive method
+`write` and `read` are exclusive methods: when two transactions attempt a call in the same cycle
+the TransactionManager grants at most one of them (fixed priority between the two
+transactions; `prio1` = the second caller wins).  `peek` is nonexclusive: every caller runs. -/
+
+/-- which of two attempting callers is granted (`false` = caller 0, `true` = caller 1) -/
+def grant (prio1 : Bool) (a0 a1 : Bool) : Option Bool :=
+  if a0 && a1 then some prio1 else if a0 then some false else if a1 then some true else none
+
+/-- the argument of the granted caller -/
+def pickArg {α : Type} (prio1 : Bool) (a0 a1 : Option α) : Option α :=
+  match grant prio1 a0.isSome a1.isSome with
+  | some false => a0
+  | some true => a1
+  | none => none
+
+/-- result `r` of the method delivered to caller `j` only if `j` is the granted caller -/
+def deliver {α : Type} (g : Option Bool) (j : Bool) (r : Option α) : Option α :=
+  if g = some j then r else none
+
+namespace Sink
+
+structure In2 where
+  valid : Bool
+  payload : Nat
+  r0 : Bool
+  r1 : Bool
+  k0 : Bool
+  k1 : Bool
+deriving Repr, DecidableEq
+
+structure Out2 where
+  ready : Bool
+  r0 : Option Nat
+  r1 : Option Nat
+  k0 : Option Nat
+  k1 : Option Nat
+deriving Repr, DecidableEq
+
+/-- StreamSink with two callers of `read` and two callers of `peek` -/
+def step2 (prio1 : Bool) (i : In2) : Out2 :=
+  let g := grant prio1 i.r0 i.r1
+  let o := step { valid := i.valid, payload := i.payload, read := g.isSome, peek := i.k0 || i.k1 }
+  { ready := o.ready, r0 := deliver g false o.read, r1 := deliver g true o.read
+    k0 := if i.k0 then o.peek else none, k1 := if i.k1 then o.peek else none }
+
+end Sink
+
 /-! ### StreamModuleWrapper around an arbitrary module with stream ports `i`, `o` -/
 
 /-- what happens on the two stream ports of the wrapped module in one cycle -/
